@@ -21,9 +21,12 @@ type pVia struct {
 func genRespVia(L int, tag string) pVia {
 	var v pVia
 	v.transport = []string{"UDP", "TCP", "udp", "TLS", "SCTP"}[rt.Choice("transport", 5)]
-	if rt.Bool("byname") {
+	switch hk := rt.Choice("hostkind", 3); {
+	case hk == 1:
 		v.host, v.ip = "ua.example.com", "10.0.2.77"
-	} else {
+	case hk == 2: // the next hop is one of the proxy's own backends (a backend originated the request)
+		v.host, v.ip = "10.0.1.1", "10.0.1.1"
+	default:
 		v.host = "10.0.2." + rt.Dec("octet", 2)
 		v.ip = v.host
 	}
@@ -102,8 +105,13 @@ func VC02_Response() {
 	}
 	head += "\r\n"
 	status := rt.Int("status", 100, 699)
+	method := []string{"OPTIONS", "SUBSCRIBE", "INVITE", "BYE"}[rt.Choice("cseq-method", 4)]
+	toTag := ";tag=b"
+	if rt.Bool("no-to-tag") {
+		toTag = "" // e.g. a 100 Trying
+	}
 	text := "SIP/2.0 " + itoa(status) + " OK\r\n" + head +
-		"From: <sip:alice@example.com>;tag=a\r\nTo: <sip:bob@example.net>;tag=b\r\nCall-ID: c1\r\nCSeq: 1 OPTIONS\r\nContent-Length: 0\r\n\r\n"
+		"From: <sip:alice@example.com>;tag=a\r\nTo: <sip:bob@example.net>" + toTag + "\r\nCall-ID: c1\r\nCSeq: 1 " + method + "\r\nContent-Length: 0\r\n\r\n"
 	ok := w.deliver(text, "10.0.1.1", 5060, true)
 	rt.Assert(ok, "response decodes")
 	if !ok {
